@@ -1873,15 +1873,73 @@ func ruleStateCensus(p *Program, r *Reporter) {
 					if localBase(x.Map, 0) {
 						continue
 					}
-					base := ""
-					if u, ok := x.Map.(*ssa.UnOp); ok {
-						base = describe(u.X)
-						if base == "" {
-							if ia, ok := u.X.(*ssa.IndexAddr); ok {
-								if u2, ok := ia.X.(*ssa.UnOp); ok {
-									base = describe(u2.X) + "[]"
+					// where the map comes from: a field, an element of a field, or
+					// — through φ and the library's own functions — one of these
+					// on every path
+					var originsOf func(v ssa.Value, d int) (map[string]bool, bool)
+					originsOf = func(v ssa.Value, d int) (map[string]bool, bool) {
+						out := map[string]bool{}
+						if d > 4 {
+							return nil, false
+						}
+						switch m := v.(type) {
+						case *ssa.Const:
+							if m.IsNil() {
+								return out, true
+							}
+						case *ssa.UnOp:
+							if b := describe(m.X); b != "" {
+								out[b] = true
+								return out, true
+							}
+							if ia, ok := m.X.(*ssa.IndexAddr); ok {
+								if u2, ok := ia.X.(*ssa.UnOp); ok && describe(u2.X) != "" {
+									out[describe(u2.X)+"[]"] = true
+									return out, true
 								}
 							}
+						case *ssa.Phi:
+							for _, e := range m.Edges {
+								if e == v {
+									continue
+								}
+								o, ok := originsOf(e, d+1)
+								if !ok {
+									return nil, false
+								}
+								for k := range o {
+									out[k] = true
+								}
+							}
+							return out, true
+						case *ssa.Call:
+							cal := m.Call.StaticCallee()
+							if cal == nil || fnPkg(cal) == nil || !IsLibPath(fnPkg(cal).Pkg.Path()) || cal.Signature.Results().Len() != 1 {
+								return nil, false
+							}
+							// the callee's receiver must be the caller's: the same object's field
+							if cal.Signature.Recv() == nil || len(m.Call.Args) == 0 || len(fn.Params) == 0 || m.Call.Args[0] != ssa.Value(fn.Params[0]) {
+								return nil, false
+							}
+							for _, rb := range cal.Blocks {
+								if ret, ok := terminator(rb).(*ssa.Return); ok {
+									o, ok := originsOf(returnOperand(ret, 0), d+1)
+									if !ok {
+										return nil, false
+									}
+									for k := range o {
+										out[k] = true
+									}
+								}
+							}
+							return out, true
+						}
+						return nil, false
+					}
+					base := ""
+					if o, ok := originsOf(x.Map, 0); ok && len(o) == 1 {
+						for k := range o {
+							base = k
 						}
 					}
 					if base == "" {
